@@ -50,6 +50,7 @@ import Gen.Facts
 import Proofs.FormatCallLex
 import Proofs.FormatDeclLex
 
+import Proofs.FormatResRoundTrips
 import Proofs.FormatResLex
 import Proofs.FormatStageLex
 
@@ -628,7 +629,7 @@ entries, including none): the printed block, followed by any text, lexes as `) u
 entries and then the tokens of that text; and `resources` reads these tokens, closed by `)`, back
 as the same `Resources`, leaving what follows.  (The printed order is the canonical one, so the
 result is identical, not just equal up to a normal form; printing it again gives the same text.)
-Domain: mem_gb / vmem_gb below 256 GB in magnitude (`wfMB`): the range where the model's exact reading and the
+Domain: mem_gb / vmem_gb satisfying `gbRoundTrips` (`wfMB`, section ResourceDomain: every value below 256 GB, every whole number of GB up to 64 TB; exactly the values the real float32 reading of formatGB's text gives back): the range where the model's exact reading and the
 real parser's float32 reading agree (`readGB32_inverts_formatGB`); above it the real formatter is not a
 fixed point (F29, `formatGB_float32_witness`). -/
 theorem parse_format_resources (r : Res) (hw : wfRes r = true) :
@@ -666,7 +667,7 @@ theorem parse_format_stage_tail (res : Option Res) (ret : Option (List Bytes))
 
 /-- **A whole declaration**: the text of a stage without parameters carrying all three clauses
 reads back as the same stage; hence formatting is idempotent on it.
-Domain: mem_gb / vmem_gb below 256 GB in magnitude (`wfMB`): the range where the model's exact reading and the
+Domain: mem_gb / vmem_gb satisfying `gbRoundTrips` (`wfMB`, section ResourceDomain: every value below 256 GB, every whole number of GB up to 64 TB; exactly the values the real float32 reading of formatGB's text gives back): the range where the model's exact reading and the
 real parser's float32 reading agree (`readGB32_inverts_formatGB`); above it the real formatter is not a
 fixed point (F29, `formatGB_float32_witness`). -/
 theorem parse_format_stage0 (s : Stage0) (hw : wfStage0 s = true) :
@@ -912,7 +913,7 @@ texts of any length — hence whichever way the 35/25 cut-offs of `getWidths` an
 `Stage.format` fall —, every language, a command with arguments, split or not, any `Resources`
 incl. negative and fractional `mem_gb`, any retain list) the reader accepts the printed text and
 returns exactly the stage.
-Domain: mem_gb / vmem_gb below 256 GB in magnitude (`wfMB`): the range where the model's exact reading and the
+Domain: mem_gb / vmem_gb satisfying `gbRoundTrips` (`wfMB`, section ResourceDomain: every value below 256 GB, every whole number of GB up to 64 TB; exactly the values the real float32 reading of formatGB's text gives back): the range where the model's exact reading and the
 real parser's float32 reading agree (`readGB32_inverts_formatGB`); above it the real formatter is not a
 fixed point (F29, `formatGB_float32_witness`).  The same statement for the
 reader with the REAL float32 reading: `parse32_format_stage` below. -/
@@ -925,7 +926,7 @@ text again.  The hypothesis `_h` (some text `t` reads as `s`) is NOT used — it
 comes from; the statement is about `wfStage s`.  The TEXT-side statement (for every source text the
 real parser accepts, under explicit exception hypotheses, with the real float32 reading) is
 `format_preserves_accepted_stage32_partial`.
-Domain: mem_gb / vmem_gb below 256 GB in magnitude (`wfMB`): the range where the model's exact reading and the
+Domain: mem_gb / vmem_gb satisfying `gbRoundTrips` (`wfMB`, section ResourceDomain: every value below 256 GB, every whole number of GB up to 64 TB; exactly the values the real float32 reading of formatGB's text gives back): the range where the model's exact reading and the
 real parser's float32 reading agree (`readGB32_inverts_formatGB`); above it the real formatter is not a
 fixed point (F29, `formatGB_float32_witness`). -/
 theorem format_stage_idem (t : Bytes) (s : Stage) (_h : parseStage t = some s) (hw : wfStage s = true) :
@@ -1266,7 +1267,7 @@ stages and pipelines, with or without a top-level call; at least a declaration o
 reader accepts the printed text and returns the file up to the documented normalisations
 (`normFile`: the calls of every pipeline in `topoSort` order, calls and `return` in normal form;
 everything else exactly).
-Domain: mem_gb / vmem_gb below 256 GB in magnitude (`wfMB`): the range where the model's exact reading and the
+Domain: mem_gb / vmem_gb satisfying `gbRoundTrips` (`wfMB`, section ResourceDomain: every value below 256 GB, every whole number of GB up to 64 TB; exactly the values the real float32 reading of formatGB's text gives back): the range where the model's exact reading and the
 real parser's float32 reading agree (`readGB32_inverts_formatGB`); above it the real formatter is not a
 fixed point (F29, `formatGB_float32_witness`).  The same statement for the
 reader with the REAL float32 reading: `parse32_format_file` below. -/
@@ -1274,7 +1275,7 @@ theorem parse_format_file (f : File) (hw : wfFile f = true) : parseFile (fmtFile
   parseFile_fmtFile f hw
 
 /-- **Idempotent, whole file.**  Printing what was read gives the same text.
-Domain: mem_gb / vmem_gb below 256 GB in magnitude (`wfMB`): the range where the model's exact reading and the
+Domain: mem_gb / vmem_gb satisfying `gbRoundTrips` (`wfMB`, section ResourceDomain: every value below 256 GB, every whole number of GB up to 64 TB; exactly the values the real float32 reading of formatGB's text gives back): the range where the model's exact reading and the
 real parser's float32 reading agree (`readGB32_inverts_formatGB`); above it the real formatter is not a
 fixed point (F29, `formatGB_float32_witness`). -/
 theorem format_file_idem (f : File) (hw : wfFile f = true) : fmtFile (normFile f) = fmtFile f :=
@@ -1322,7 +1323,7 @@ output for it, `fmtFile g`, is the printed form of the distributed file; (3) tha
 the normal form of the distributed file — the same includes, filetypes, structs and stages, the
 same pipelines up to the order of their calls (`normPipeline`), the same call; and (4) formatting
 again changes nothing.
-Domain (`wfSource`: every declaration well formed): mem_gb / vmem_gb below 256 GB in magnitude (`wfMB`): the range where the model's exact reading and the
+Domain (`wfSource`: every declaration well formed): mem_gb / vmem_gb satisfying `gbRoundTrips` (`wfMB`, section ResourceDomain: every value below 256 GB, every whole number of GB up to 64 TB; exactly the values the real float32 reading of formatGB's text gives back): the range where the model's exact reading and the
 real parser's float32 reading agree (`readGB32_inverts_formatGB`); above it the real formatter is not a
 fixed point (F29, `formatGB_float32_witness`). -/
 theorem format_preserves_program (w : Nat → Bytes) (hws : ∀ k, (w k).all isSp = true)
@@ -2415,5 +2416,41 @@ theorem accepted_file_negative_zero_duplicate_modifier :
   set_option maxRecDepth 100000 in decide +kernel
 
 end AcceptedFileTexts
+
+/-! ## The exact domain of the resource round trip (third audit, A10)
+
+`wfMB` - the `mem_gb` / `vmem_gb` conjunct of `wfRes`, `wfStage`, `wfFile` and of the text-side
+hypotheses `stageMB32Valid` / `fileMB32Valid` - is `gbRoundTrips`: the REAL reading (`readGB32`) of
+`formatGB`'s text is the value again.  Not a range any more: every value on which the code round-trips
+is covered, F29 is exactly its complement (within `formatGB`'s `int64` range, F25). -/
+section ResourceDomain
+open Martian.FormatRes
+
+/-- every value below 256 GB round-trips (all 2·262144 values: kernel evaluation, 64 slices) -/
+theorem gbRoundTrips_below_256GB (mb : Int) (hb : mb.natAbs < 262144) : gbRoundTrips mb = true :=
+  gbRoundTrips_of_lt mb hb
+
+/-- every whole number of GB up to 64 TB, of either sign, round-trips: `formatGB` prints an integer
+and float32 holds it exactly (65536 values by kernel evaluation; beyond 2^24 GB float32 cannot hold
+every integer and the statement fails) -/
+theorem gbRoundTrips_whole_GB (k : Int) (hk : k.natAbs < 65536) : gbRoundTrips (1024 * k) = true :=
+  gbRoundTrips_whole k hk
+
+/-- what the predicate gives: the real reader inverts `formatGB`, within its `int64` range -/
+theorem gbRoundTrips_spec (mb : Int) (h : gbRoundTrips mb = true) :
+    mb.natAbs < 2 ^ 63 ∧ readGB32 (fmtGB mb) = some mb ∧ readGB32Tok (tokGB mb) = some mb := by
+  refine ⟨gbRoundTrips_lt63 h, ?_, gbRoundTrips_tok h⟩
+  simp only [gbRoundTrips, Bool.and_eq_true, beq_iff_eq] at h
+  exact h.2
+
+/-- witnesses: `vmem_gb = 1024` of the repo's testdata/formatter_test.mro (1 TB) and 16 TB are inside
+the domain now; F29's value 262188 MB and its neighbour 262189 are outside, 262187 and 262144 inside -/
+theorem resource_domain_witnesses :
+    gbRoundTrips (1024 * 1024) = true ∧ wfMB (some (1024 * 16384)) = true ∧
+    gbRoundTrips 262188 = false ∧ gbRoundTrips 262187 = true ∧ gbRoundTrips 262144 = true ∧
+    gbRoundTrips (-262188) = false ∧ gbRoundTrips (2 ^ 63) = false := by decide +kernel
+
+end ResourceDomain
+
 
 end Props.C09
